@@ -395,6 +395,8 @@ class Check:
         cov = self.cov
         if not cov["samples"]:
             cov["samples"] = ["(no sample recorded)"]
+        cov["samples"] = [x if isinstance(x, str) else json.dumps(x, separators=(",", ":"), default=str)[:4000]
+                          for x in cov["samples"][:8]]
         cov["known_findings_reported"] = [k for k, _ in self.known_hits]
         cov["notes"] = self.notes
         ev = dict(property_id=self.pid, tier=self.tier, seed=self.seed, level=self.level,
